@@ -5,7 +5,7 @@ oracle = Python int arithmetic on int(bits, 2) masked to len; algebraic laws ass
 """
 from __future__ import annotations
 
-from .. import core, families
+from .. import core, families, routes
 from ..util import CLASSES, STREAMS, MUTABLE, obs, cb, vkind, mk
 from ..util import snippet as _snippet
 from .c01 import promotable_forms, CB_SRC, build
@@ -28,7 +28,7 @@ def describe(tier):
     return dict(bounds=dict(options_lsb0='False for everything; True for all unary/shift events and all pairs of length <= 4', pairs='all ordered pairs of contents of length <= %d' % (7 if q else 9),
                             edge_lengths=[63, 64, 65, 127, 128, 129] + ([] if q else [255, 256, 257, 1023, 1024, 1025, 2000, 2001]),
                             left_classes=list(CLASSES), right='4 classes + promotable forms (str, list, tuple, generator, bitarray, bytes...)',
-                            shifts='n in [-2, L+2] U {64, 10**9}', self_operand=True),
+                            shifts='n in [-2, L+2] U {64, 10**9}', self_operand=True, views='operands built through %d view / derived routes (length-limited files, offsets, BytesIO, slices, little-endian bitarray) for all pairs of contents of length <= %d' % (len(VIEW_ROUTES), 4 if q else 5)),
                 rule='each (pair, operator, class combination) executed once; non-trivial = model outcome is a value (equal lengths, '
                      'non-empty where required) rather than the documented rejection',
                 assumptions=['Python int arithmetic is the definition of the per-bit boolean functions'])
@@ -42,6 +42,9 @@ def shards(tier, seed):
     Ls = [63, 64, 65, 127, 128, 129] + ([] if q else [255, 256, 257, 1023, 1024, 1025, 2000, 2001])
     for L in Ls:
         out.append(dict(kind='edge', L=L, seed=seed))
+    vconts = list(families.all_bits(4 if q else 5)) + ['10110010', '1011001000000001', '101100100']
+    for part in families.chunk(vconts, 12):
+        out.append(dict(kind='views', left=part, conts=vconts))
     return out
 
 
@@ -114,6 +117,12 @@ def run_shard(shard, acc):
                                 binary(bs, acc, a, b, full=False, lsb0=True)
             finally:
                 core.set_options()
+        elif shard['kind'] == 'views':
+            ctx = routes.Ctx()
+            try:
+                views(bs, acc, ctx, shard['left'], shard['conts'])
+            finally:
+                ctx.close()
         else:
             L = shard['L']
             pats = families.edge(L, shard['seed'], full=False)
@@ -256,14 +265,14 @@ def binary(bs, acc, a, b, full, lsb0=False):
                 got = obs(lambda: eval_op(sym, s, s), cb)
                 acc.step(op, 1, nontrivial=1, ok=1)
                 if not exc_match(exp, got) or s.bin != a:
-                    acc.violation(op, 'value' if s.bin == a else 'frame', dict(lcls=lcls, left=a, self_operand=True),
+                    acc.violation(op, 'value' if s.bin == a else 'frame', dict(lcls=lcls, left=a, self_operand=True, views='operands built through %d view / derived routes (length-limited files, offsets, BytesIO, slices, little-endian bitarray) for all pairs of contents of length <= %d' % (len(VIEW_ROUTES), 4 if q else 5)),
                                   snippet([f"s = {mk(lcls, a)}"], f"s {sym} s", exp, conv=CB_SRC), exp, got)
                 if lcls in MUTABLE:
                     got = obs(lambda: inplace_self(sym, s))
                     e2 = ('ok', imodel(op, a, a)[1])
                     acc.step('i' + op, 1, nontrivial=1, ok=1)
                     if got != e2:
-                        acc.violation('i' + op, vkind(e2, got), dict(lcls=lcls, left=a, self_operand=True),
+                        acc.violation('i' + op, vkind(e2, got), dict(lcls=lcls, left=a, self_operand=True, views='operands built through %d view / derived routes (length-limited files, offsets, BytesIO, slices, little-endian bitarray) for all pairs of contents of length <= %d' % (len(VIEW_ROUTES), 4 if q else 5)),
                                       '\n'.join(["import bitstring", f"s = {mk(lcls, a)}", f"s {sym}= s", f"assert s.bin == {e2[1]!r}, s.bin"]), e2, got)
         # De Morgan on the implementation, as a cross-check of the oracle
     if len(a) == len(b) and a:
@@ -273,6 +282,92 @@ def binary(bs, acc, a, b, full, lsb0=False):
                           '\n'.join(["import bitstring", f"x, y = bitstring.Bits(bin={a!r}), bitstring.Bits(bin={b!r})",
                                      "assert ~(x & y) == (~x | ~y) and ~(x | y) == (~x & ~y)"]), None, None)
         acc.step('and', 2, nontrivial=2, ok=2)
+
+
+VIEW_ROUTES = ('file_len', 'file_off3_len', 'file_handle_len', 'bytes_off3', 'bytesio', 'stepslice', 'from_mutated', 'bitarray_le', 'memoryview_strided_off', 'fromstring')
+
+
+def views(bs, acc, ctx, lefts, conts):
+    """The same operators with an operand that is a window onto a longer source (file, bytes, BytesIO), a derived object or another
+    construction route: left operand, right operand, both; ~ and shifts on the view; operands are never modified."""
+    P = routes.SNIPPET_PRELUDE
+    for a in lefts:
+        for lcls in CLASSES:
+            for r in VIEW_ROUTES:
+                s = routes.build(bs, r, lcls, a, ctx)
+                if s is None:
+                    continue
+                ssrc = routes.source(r, lcls, a)
+                acc.state(('view', lcls, a, r))
+                exp = wrap(lcls, invert_model(a))
+                got = obs(lambda: ~s, cb)
+                ok_ = int(exp[0] == 'ok')
+                acc.step('invert', 1, nontrivial=ok_, ok=ok_, rej=1 - ok_)
+                if not exc_match(exp, got):
+                    acc.violation('invert', vkind(exp, got), dict(cls=lcls, data=a, route=r, group=r), snippet([P, f"s = {ssrc}"], "~s", exp, conv=CB_SRC), exp, got)
+                for n in dict.fromkeys([0, 1, len(a) - 1, len(a)]):
+                    if n < 0:
+                        continue
+                    for op, left, th, src in (('lshift', True, lambda: s << n, f"s << {n}"), ('rshift', False, lambda: s >> n, f"s >> {n}")):
+                        exp = wrap(lcls, shift_model(a, n, left))
+                        got = obs(th, cb)
+                        ok_ = int(exp[0] == 'ok')
+                        acc.step(op, 1, nontrivial=ok_, ok=ok_, rej=1 - ok_)
+                        if not exc_match(exp, got):
+                            acc.violation(op, vkind(exp, got), dict(cls=lcls, data=a, n=n, route=r, group=r), snippet([P, f"s = {ssrc}"], src, exp, conv=CB_SRC), exp, got)
+                for b in conts:
+                    rcls = CLASSES[(len(a) + len(b) + len(r)) % 4]
+                    t_plain = getattr(bs, rcls)(bin=b)
+                    t_view = routes.build(bs, r, rcls, b, ctx)
+                    for op, (sym, _) in OPS.items():
+                        m = imodel(op, a, b)
+                        ok_ = int(m[0] == 'ok')
+                        cases = [('view-plain', lcls, s, t_plain, ssrc, mk(rcls, b), m),
+                                 ('plain-view', rcls, t_plain, s, mk(rcls, b), ssrc, imodel(op, b, a))]
+                        if t_view is not None:
+                            cases.append(('view-view', lcls, s, t_view, ssrc, routes.source(r, rcls, b), m))
+                        if a == b:
+                            cases.append(('view-self', lcls, s, s, ssrc, None, m))
+                        for tag, ecls, x, y, xs, ys, mm in cases:
+                            exp = wrap(ecls, mm)
+                            got = obs(lambda: eval_op(sym, x, y), cb)
+                            acc.step(op, 1, nontrivial=ok_, ok=ok_, rej=1 - ok_)
+                            if not exc_match(exp, got):
+                                pre = [P, f"s = {xs}", f"t = {ys}" if ys else "t = s"]
+                                acc.violation(op, vkind(exp, got), dict(lcls=lcls, left=a, rcls=rcls, right=b, route=r, case=tag, group=f'{r}|{tag}'),
+                                              snippet(pre, f"s {sym} t", exp, conv=CB_SRC), exp, got)
+                    if t_view is not None and t_view.bin != b:
+                        acc.violation('frame', 'frame', dict(cls=rcls, data=b, route=r, group=r), "# view operand changed\nassert False", b, t_view.bin)
+                # in-place on a mutable object built through the route, with a view operand of the same route
+                if lcls in MUTABLE:
+                    for b in conts:
+                        if len(b) != len(a):
+                            continue
+                        for op, (sym, _) in OPS.items():
+                            x = routes.build(bs, r, lcls, a, ctx)
+                            y = routes.build(bs, r, 'Bits', b, ctx)
+                            if y is None:
+                                y = bs.Bits(bin=b)
+                            m = imodel(op, a, b)
+                            got = obs(lambda: inplace(sym, x, y))
+                            acc.step('i' + op, 1, nontrivial=1, ok=1)
+                            if got != ('ok', m[1]) or y.bin != b:
+                                acc.violation('i' + op, vkind(m, got), dict(lcls=lcls, left=a, right=b, route=r, group=f'{r}|inplace'),
+                                              '\n'.join([P, f"s = {ssrc}", f"t = {routes.source(r, 'Bits', b) if routes.build(bs, r, 'Bits', b, ctx) is not None else mk('Bits', b)}",
+                                                         f"s {sym}= t", f"assert s.bin == {m[1]!r} and t.bin == {b!r}, (s.bin, t.bin)"]), m, got)
+                if s.bin != a:
+                    acc.violation('frame', 'frame', dict(cls=lcls, data=a, route=r, group=r), "# view operand changed\nassert False", a, s.bin)
+    acc.sample(dict(event="s OP t, t OP s, ~s, s << n with s a length-limited file-backed / offset / derived object", routes=list(VIEW_ROUTES)))
+
+
+def inplace(sym, x, y):
+    if sym == '&':
+        x &= y
+    elif sym == '|':
+        x |= y
+    else:
+        x ^= y
+    return x.bin
 
 
 def eval_op(sym, x, y):
